@@ -128,6 +128,27 @@ fn pow_boxed(cx: &mut Cx, iters: usize) {
     }
 }
 
+/// The second of the two final conditional subtractions of the boxed ladder is needed only when the last window
+/// multiplication leaves floor(z/m) = 2: moduli with exactly one leading zero bit just below 2^(BITS-1), about one
+/// call in 2 000-4 000 (measured).  Volume on one- and two-limb moduli, where a call costs microseconds.
+fn pow_boxed_double_reduction(cx: &mut Cx, iters: usize) {
+    for it in 0..iters {
+        let n = 1 + (it % 8 == 7) as usize;
+        let mut m = nat(&mut cx.rng, n);
+        let top = n - 1;
+        // top limb in [0.45, 0.5) * 2^64
+        m[top] = (m[top] % 0x0ccc_cccc_cccc_cccc) + 0x7333_3333_3333_3333;
+        m[0] |= 1;
+        let params = BoxedMontyParams::new_vartime(oddb(&m).unwrap());
+        let b = below(&mut cx.rng, &m);
+        let sh = cx.rng.below(48) as u32;
+        let e = vec![cx.rng.next() >> sh];
+        let x = BoxedMontyForm::new(bx(&fit(b.clone(), n)), params);
+        let ex = bx(&e);
+        cx.call(pow_ev("BoxedMontyForm.pow.volume", 64 * n, &m, &b, &e, 64, 64), || { let r = x.pow(&ex); O::ok().n("rt", &wb(&r.retrieve())).n("mf", &wb(r.as_montgomery())) });
+    }
+}
+
 impl_modulus!(C64Three, U64, "0000000000000003");
 impl_modulus!(C64Top, U64, "8000000000000001");
 impl_modulus!(C128Third, U128, "55555555555555555555555555555555");
@@ -253,6 +274,7 @@ fn main() {
         pow_dyn::<16, 2>(&mut cx, 3 * s, false);
     }
     if cx.want("powboxed") { pow_boxed(&mut cx, 70 * s); }
+    if cx.want("powvolume") { pow_boxed_double_reduction(&mut cx, 40_000 * s.min(5)); }
     if cx.want("const") {
         pow_const!(cx, C64Three, 1, 1, 8 * s, true);
         pow_const!(cx, C64Top, 1, 2, 8 * s, true);
